@@ -110,3 +110,39 @@ def c08(tier, seed):
     c.required_points = ["WAITLIST_ULT_WAIT", "BROADCAST_ULT", "BROADCAST_EXT", "FUTEX_WAIT_AFTER_UNLOCK"]
     c.required_counters = ["rounds", "reinits", "xstream_barrier_rounds", "reentered_while_others_leaving"]
     return c
+
+
+COND_HAMMER = ("COND_WAIT_AFTER_UNLOCK", "TIMEDOUT_BEFORE_RELOCK", "SIGNAL_EXT_AFTER_READY", "BROADCAST_BEFORE_FUTEX",
+               "FUTEX_WAIT_AFTER_UNLOCK", "SUSPEND_AFTER_BLOCKED", "RESUME_AFTER_PUSH")
+
+
+@prop("C05")
+def c05(tier, seed):
+    c = Check("C05", tier, seed)
+    q = tier == "quick"
+    c.rule = ("soup case = one closed producer/consumer program (1-10 producers and as many consumers, ULT/external, "
+              "0-70% timed waits incl. deadlines in the past) on a random configuration; script case = one queue shape of "
+              "1-5 waiters {ULT,external}x{timed,untimed} driven by a random script of clock advances/signals/broadcasts "
+              "under a manual virtual clock; non-trivial soup = real blocking observed (WAITLIST_ULT_WAIT or external futex "
+              "waits) ; distinct = distinct configuration signatures (soup) + distinct queue shapes counted by the harness")
+    c.assumptions = ["monitor discipline: signal/broadcast issued while holding the mutex (as the property states)",
+                     "credit accounting over-approximates outstanding wake-ups when timed waiters are in flight, so it "
+                     "can miss but never invent a spurious wake-up; exact wake-up sets are checked in the scripted shapes"]
+    profiles = ["off", "uniform", hammer(*COND_HAMMER), hammer(*WAITLIST_HAMMER)]
+    soup(c, "h_cond", profiles, q, seed,
+         mon_args=lambda q: ["--mode", "soup", "--rounds", 8 if q else 24, "--quota", 300 if q else 1500],
+         san_args=lambda q: ["--mode", "soup", "--rounds", 4, "--quota", 120],
+         squeeze_args=lambda q: ["--mode", "soup", "--rounds", 4, "--quota", 100 if q else 400],
+         extra_sources=("vclock.c",))
+    for i, s in enumerate(seeds(seed, 2 if q else 16, salt=5)):
+        c.add(Run("h_cond", "mon", ["--seed", s, "--mode", "script", "--shapes", 400 if q else 3000, "--max-n", 5,
+                                    "--watchdog", 120 if q else 600], weight=2, tag="script%d" % i,
+                  extra_sources=("vclock.c",)))
+    c.add(Run("h_cond", "asan", ["--seed", seed + 77, "--mode", "script", "--shapes", 150 if q else 1500, "--max-n", 5,
+                                 "--watchdog", 120], weight=2, tag="script-asan", extra_sources=("vclock.c",)))
+    c.nontrivial = lambda r: has_cov(r, "WAITLIST_ULT_WAIT") or (r.result or {}).get("scenario") == "cond_script"
+    c.required_points = ["WAITLIST_ULT_WAIT", "SIGNAL_ULT", "BROADCAST_EXT", "TIMEDOUT_REMOVE_HEAD",
+                         "TIMEDOUT_REMOVE_MIDDLE", "TIMEDOUT_REMOVE_TAIL", "SIGNAL_EXT_AFTER_READY"]
+    c.required_counters = ["waits", "timedwaits", "timeouts", "signals", "broadcasts", "waits_by_external",
+                           "wrong_mutex_rejected", "signal_with_no_waiter", "shapes"]
+    return c
